@@ -2,15 +2,19 @@
 # usage: applyseed.sh <patch.diff>  — applies a seeded change to /repo's working tree (never committed).
 # peg.peg.go hunks are dropped and the file is regenerated with the patched generator instead,
 # because /repo has moved on from the pinned commit (fix: commits regenerate peg.peg.go).
-set -e
 P="$1"
 cd /repo
-git apply --exclude=peg.peg.go "$P" 2>/dev/null || git apply --3way --exclude=peg.peg.go "$P"
+if ! git apply --exclude=peg.peg.go "$P" 2>/dev/null; then
+  git apply --3way --exclude=peg.peg.go "$P" >/dev/null 2>&1
+  if [ -n "$(git diff --name-only --diff-filter=U)" ] || git diff | grep -q '^+<<<<<<<'; then
+    echo "conflict applying $P"; git reset -q --hard HEAD; exit 1
+  fi
+  git reset -q   # unstage what --3way staged; keep the working tree
+fi
 if grep -q '^diff --git a/peg.peg.go' "$P"; then
   T=$(mktemp -d)
-  GOFLAGS=-mod=mod GOPROXY=off go build -o $T/peg . 
+  GOFLAGS=-mod=mod GOPROXY=off go build -o $T/peg . || { echo "build failed"; rm -rf $T; exit 1; }
   $T/peg -inline -switch peg.peg
-  # second round so that the front end itself is built from the regenerated file (fixed point)
   GOFLAGS=-mod=mod GOPROXY=off go build -o $T/peg2 . && $T/peg2 -inline -switch peg.peg
   rm -rf $T
 fi
